@@ -486,3 +486,48 @@ def setattr_check():
     for b in bad[:5]:
         print(b)
     print('REPLAY: VIOLATION-CONFIRMED Units.__setattr__ does not define exactly the name and its SI-prefixed forms, or accepts an ambiguous name' if bad else 'REPLAY: not reproduced')
+
+
+# ---- nutils.unit (contracts/C20_unit.py) -----------------------------------------------------------------------------------
+
+def unit_check():
+    import itertools
+    from nutils import unit
+    Q = unit._Quantity
+    bad = []
+    maps = [{}, {'m': 1}, {'m': -2}, {'s': 3}, {'m': 2, 's': -1}, {'m': -1, 's': 1}]
+    for pa, pb in itertools.product(maps, repeat=2):
+        a, b = Q(3., pa), Q(.5, pb)
+        r = a.__imul__(b)
+        want = {k: pa.get(k, 0) + pb.get(k, 0) for k in set(pa) | set(pb) if pa.get(k, 0) + pb.get(k, 0)}
+        if r is not a or a.powers != want or a.value != 1.5 or b.powers != pb or b.value != .5:
+            bad.append('Q(3,%r) *= Q(.5,%r) gives value %r powers %r (other: %r %r)' % (pa, pb, a.value, a.powers, b.value, b.powers))
+    for pa in maps:
+        for n in (-2, -1, 0, 1, 2, 3):
+            a = Q(2., pa)
+            try:
+                r = a**n
+            except Exception as e:
+                bad.append('Q(2,%r)**%d raised %s' % (pa, n, type(e).__name__))
+                continue
+            want = {k: v * n for k, v in pa.items() if v * n}
+            if r.powers != want or r.value != 2.**n or a.powers != pa or a.value != 2.:
+                bad.append('Q(2,%r)**%d gives value %r powers %r' % (pa, n, r.value, r.powers))
+    if Q(2., {'m': 1}).__pow__(.5) is not NotImplemented or Q(2., {'m': 1}).__imul__(3.) is not NotImplemented:
+        bad.append('non-int exponent / non-quantity factor accepted')
+    U = unit.create(m=1, s=1, g=1e-3, N='kg*m/s2', Pa='N/m2', min='60s')
+    for s, u, want in [('2km', 'm', 2000.), ('3N', 'kg*m/s2', 3.), ('5Pa*m2', 'N', 5.), ('2min', 's', 120.), ('7m/s*s', 'm', 7.), ('4kg*m*s/s2', 'N*s', 4.)]:
+        try:
+            got = U[u](s)
+            if abs(got - want) > 1e-9 * abs(want):
+                bad.append('%r as %r = %r, expected %r' % (s, u, got, want))
+        except Exception as e:
+            bad.append('%r as %r raised %s: %s' % (s, u, type(e).__name__, e))
+    for s, u in [('2km', 's'), ('3N', 'kg*m/s'), ('2m2', 'm'), ('5', 'm'), ('2m/m', 'm'), ('2m*s/s', 's')]:
+        try:
+            bad.append('%r accepted as %r: %r' % (s, u, U[u](s)))
+        except ValueError:
+            pass
+    for b in bad[:6]:
+        print(b)
+    print('REPLAY: VIOLATION-CONFIRMED nutils.unit does not add exponents pointwise / drop cancelled entries / reject another dimension' if bad else 'REPLAY: not reproduced')
